@@ -46,12 +46,11 @@ let dispatch fn args = match fn, args with
     let d = run_from_empty v h in
     "st=" ^ str_of_bool (last_ok_from_empty v h) ^ ";" ^
     (match observe d with None -> "bad" | Some st -> show_store st)
-  | "spec", strict :: ver :: ops ->
+  | "spec", ver :: ops ->
     (* the abstract store, only asked for histories whose inputs are well formed *)
     let h = List.map op_of ops in
     let v = n_of_hex ver in
-    let st = bool_of_str strict in
-    if List.for_all (wf_op st) h && fresh_adds h (empty_store v) then show_store (arun (empty_store v) h) else "notwf"
+    if List.for_all wf_op h && fresh_adds h (empty_store v) then show_store (arun (empty_store v) h) else "notwf"
   | "kwtext", [s] -> String.concat "|" (List.map show (kw_of_text (str_of s)))
   | "encname", [s] -> show (encode_name (str_of s))
   | "decname", [s] -> (match decode_name (str_of s) with None -> "err" | Some t -> show t)
